@@ -144,19 +144,21 @@ Section WithParseIP.
 
   Definition init : state := {| s_now := 0; s_cache := []; s_next := 0 |}.
 
+  (* createCert + X509KeyPair + certs.Set on the cache [m] *)
+  Definition fresh (s : state) (h : str) (m : cache) : state * res cert :=
+    if creatable h then
+      let c := mk_cert (s_next s) h (s_now s) in
+      ({| s_now := s_now s; s_cache := set h c m; s_next := s_next s + 1 |}, Ok c)
+    else ({| s_now := s_now s; s_cache := m; s_next := s_next s |}, Err).
+
   (* one sequential call of GetCertForHost at the state's clock *)
   Definition get_cert (hp : str) (s : state) : state * res cert :=
     match split_host_port hp with
     | None => (s, Err)
     | Some (h, _) =>
-        let fresh (m : cache) :=
-          if creatable h then
-            let c := mk_cert (s_next s) h (s_now s) in
-            ({| s_now := s_now s; s_cache := set h c m; s_next := s_next s + 1 |}, Ok c)
-          else ({| s_now := s_now s; s_cache := m; s_next := s_next s |}, Err) in
         match lookup h (s_cache s) with
-        | Some c => if expired (s_now s) c then fresh (remove h (s_cache s)) else (s, Ok c)
-        | None => fresh (s_cache s)
+        | Some c => if expired (s_now s) c then fresh s h (remove h (s_cache s)) else (s, Ok c)
+        | None => fresh s h (s_cache s)
         end
     end.
 
